@@ -24,7 +24,7 @@ func init() {
 		Explanation: "Decides for every statement and function the structural necessary conditions of 'the //line directive in front of the generated code names the statement's own file and line': " +
 			"(1) in cl.compileStmt every path to the statement dispatch calls commentStmt(ctx, stmt) on the statement being compiled, and commentStmt calls commentStmtEx whenever ctx.fileLine is set; in cl.loadFunc every path on which NewFuncWith succeeded calls commentFunc(ctx, fn, d) on the new function and its declaration; " +
 			"(2) in commentStmtEx and commentFunc the directive text is built by a `//line %s:%d[:1]` format whose arguments are the Filename and Line fields of fset.Position(start), where every definition of start is X.Pos() of the statement / the declaration's name, or of their doc comment (which is emitted between the directive and the code); the filename is only rewritten by fileLineFile(relBaseDir, ·); the resulting comment is the FIRST element of the comment group handed to SetComments, and SetComments is reached on every path with a valid position; " +
-			"(3) nothing else in package cl installs comments on the code builder: every other CodeBuilder.SetComments call passes nil or restores the value saved by BackupComments in the same function.",
+			"(3) nothing else in package cl installs comments on the code builder: every other CodeBuilder.SetComments call passes nil or restores the value saved by BackupComments in the same function; (4) every routine that lowers a nested statement list (calls compileStmts) saves the pending directive first and restores it on every path afterwards (nested-restore), and closes no statement-emitting gogen block (an End that is not the End of a VBlock or function body) between the nested list and the restore unless commentStmt set that construct's own directive in between (restore-before-emit) — gogen attaches the pending group to every statement an End emits; (5) the directive of a statement is computed when it is compiled, not carried over from another statement (line-fresh).",
 		NotCovered: "that gogen prints the comment group directly in front of the statement's first token and that the Go toolchain honours the directive; expressions that span several source lines (only the first call of a statement is covered by the property); classfile-generated code without a source statement.",
 		Run:        runC09,
 		Controls: []Control{
@@ -37,6 +37,7 @@ func init() {
 			{Name: "foreign-comments-installed", File: f, Old: "func compileReturnStmt(ctx *blockCtx, expr *ast.ReturnStmt) {\n", New: "func compileReturnStmt(ctx *blockCtx, expr *ast.ReturnStmt) {\n\tctx.cb.SetComments(&goast.CommentGroup{List: []*goast.Comment{{Text: \"// return\"}}}, true)\n", Expect: "comments-census/compileReturnStmt"},
 			{Name: "elseif-bypasses-compileStmt", File: f, Old: "\t\tif stmts, ok := e.(*ast.BlockStmt); ok {\n\t\t\tcompileStmts(ctx, stmts.List)\n\t\t} else {\n\t\t\tcompileStmt(ctx, e)\n\t\t}", New: "\t\tif stmts, ok := e.(*ast.BlockStmt); ok {\n\t\t\tcompileStmts(ctx, stmts.List)\n\t\t} else if ei, ok := e.(*ast.IfStmt); ok {\n\t\t\tcompileIfStmt(ctx, ei)\n\t\t} else {\n\t\t\tcompileStmt(ctx, e)\n\t\t}", Expect: "stmt-route/compileIfStmt→compileIfStmt"},
 			{Name: "lambda2-no-restore", File: "cl/expr.go", Old: "\tcb.End(v)\n\tctx.cb.SetComments(comments, once)\n\treturn nil\n}", New: "\tcb.End(v)\n\t_, _ = comments, once\n\treturn nil\n}", Expect: "nested-restore/compileLambdaExpr2"},
+			{Name: "forphrase-restore-after-if-emitted", File: "cl/stmt.go", Old: "\t\tcompileStmts(ctx, v.Body.List)\n\t\tcb.SetComments(comments, once)\n\t\tif rec := ctx.recorder(); rec != nil {\n\t\t\trec.Scope(v.Body, cb.Scope())\n\t\t}\n\t\tcb.End()\n", New: "\t\tcompileStmts(ctx, v.Body.List)\n\t\tif rec := ctx.recorder(); rec != nil {\n\t\t\trec.Scope(v.Body, cb.Scope())\n\t\t}\n\t\tcb.End()\n\t\tcb.SetComments(comments, once)\n", Expect: "restore-before-emit/compileForPhraseStmt"},
 			{Name: "funcbody-no-restore", File: "cl/compile.go", Old: "\tcomments, once := ctx.cb.BackupComments()\n\tdefer func() {\n\t\tctx.cb.SetComments(comments, once)\n\t}()\n\tcb := fn.BodyStart(ctx.pkg, body)", New: "\tcb := fn.BodyStart(ctx.pkg, body)", Expect: "nested-restore/loadFuncBody"},
 			{Name: "directive-cached-by-line", File: f, Old: "\tpos := ctx.fset.Position(start)\n\tif ctx.relBaseDir != \"\" {\n\t\tpos.Filename = fileLineFile(ctx.relBaseDir, pos.Filename)\n\t}\n\tline := fmt.Sprintf(\"\\n//line %s:%d:1\", pos.Filename, pos.Line)", New: "\tpos := ctx.fset.Position(start)\n\tif lastLineComments != nil && lastLine == pos.Line {\n\t\tcb.SetComments(lastLineComments, false)\n\t\treturn\n\t}\n\tlastLine = pos.Line\n\tif ctx.relBaseDir != \"\" {\n\t\tpos.Filename = fileLineFile(ctx.relBaseDir, pos.Filename)\n\t}\n\tline := fmt.Sprintf(\"\\n//line %s:%d:1\", pos.Filename, pos.Line)", Old2: "func checkStmtDoc(", New2: "var (\n\tlastLine         int\n\tlastLineComments *goast.CommentGroup\n)\n\nfunc checkStmtDoc(", Expect: "line-fresh/commentStmtEx"},
 			{Name: "fileline-guard-inverted", File: f, Old: "\tif ctx.fileLine {\n\t\tcommentStmtEx(ctx.cb, ctx.pkgCtx, stmt)\n\t}", New: "\tif ctx.fileLine && ctx.relBaseDir != \"\" {\n\t\tcommentStmtEx(ctx.cb, ctx.pkgCtx, stmt)\n\t}", Expect: "stmt-guard/commentStmt"},
@@ -308,6 +309,9 @@ func runC09(c *core.Check) {
 				bNestedUnsaved
 				bRestored
 				bDeferredRestore
+				bQuietBlock // the innermost open gogen block is a VBlock or a function body: its End emits no statement
+				bStaleEmit  // a statement-emitting End ran between the nested list and the restore
+				bFresh      // commentStmt set the directive of the construct about to be emitted (a case clause)
 			)
 			var savedVar types.Object
 			ast.Inspect(fd.Body, func(n ast.Node) bool {
@@ -341,28 +345,46 @@ func runC09(c *core.Check) {
 					switch {
 					case fn != nil && fn.Name() == "BackupComments":
 						st |= bSaved
+					case fn != nil && fn.Pkg() == pk.Types && (fn.Name() == "commentStmt" || fn.Name() == "commentStmtEx"):
+						st |= bFresh
 					case o != nil && o == compileStmts:
 						st |= bNested
-						st &^= bRestored
+						st &^= bRestored | bFresh
 						if st&bSaved == 0 {
 							st |= bNestedUnsaved
 						}
 					case fn != nil && fn.Name() == "SetComments" && len(call.Args) == 2 && savedVar != nil && identObj(info, call.Args[0]) == savedVar:
 						st |= bRestored
+					case fn != nil && isGogenMethod(fn) && (fn.Name() == "VBlock" || fn.Name() == "BodyStart"):
+						st |= bQuietBlock
+					case fn != nil && isGogenMethod(fn) && fn.Name() == "End":
+						// gogen attaches the pending comment group to the statement an End emits (if/for/switch/case/block…);
+						// after a nested list that group is the last inner statement's directive until it is restored
+						if st&bQuietBlock != 0 {
+							st &^= bQuietBlock
+						} else if st&bNested != 0 && st&(bRestored|bFresh) == 0 {
+							st |= bStaleEmit
+						}
 					}
 				}
 				return st
 			}
 			res := flow.Solve(p)
 			ok := len(res.Exits) > 0
+			stale := false
 			for _, e := range res.Exits {
 				if e.State&bNested != 0 && (e.State&bNestedUnsaved != 0 || e.State&(bRestored|bDeferredRestore) == 0) {
 					ok = false
 				}
+				if e.State&bStaleEmit != 0 {
+					stale = true
+				}
 			}
+			c.Decide(!stale, "restore-before-emit", name, fd.Pos(), "no statement is emitted (End of an if/for/switch/case block) between the nested list and the restore", "cl."+name+" closes a gogen block that emits a statement (End) after lowering a nested statement list and before restoring the saved //line directive: the emitted statement (the synthesized `if`, the loop, the clause) carries the directive of the last inner statement, so its own code is attributed to that line")
 			c.Decide(ok, "nested-restore", name, fd.Pos(), "saves the pending comment group before the nested statements and restores it afterwards on every path", "cl."+name+" lowers a nested statement list without saving the pending //line directive first and restoring it afterwards (BackupComments … SetComments): the inner statements' directives replace the one of the enclosing statement, whose remaining code is then attributed to the last inner line")
 		}
 		c.Floor("nested-restore", 8)
+		c.Floor("restore-before-emit", 8)
 		_ = loadFuncBody
 	}
 	// ---------- (2) origin of the directive text
@@ -863,4 +885,9 @@ func holdsLine(info *types.Info, fd *ast.FuncDecl, group, lineVar types.Object) 
 		return true
 	})
 	return holds
+}
+
+// isGogenMethod: a method of gogen's CodeBuilder (or of a type of that module).
+func isGogenMethod(fn *types.Func) bool {
+	return fn.Pkg() != nil && strings.HasSuffix(fn.Pkg().Path(), "goplus/gogen")
 }
